@@ -39,6 +39,9 @@ TIMEOUT = {"quick": 900, "thorough": 3600}
 REPS = {"quick": ["float", "jax", "np32"], "thorough": ["float", "np32", "np64", "jax"]}
 MAXLEN = {"quick": 5, "thorough": 7}
 SPECIAL = (0.5, 2, "inf", "nan")
+# losses that differ by less than float32 resolution, and one beyond the float32 range: a Python float / numpy.float64 loss is
+# compared as the double it is (a float32 or jax scalar carries the already rounded value, and the automaton sees that value)
+FINE = {"f0": 1e-3, "f1": 1e-3 - 1e-11, "f2": 1e-3 - 2e-11, "big": 1e39}
 LEVELS = (-1, 0, 1, 2)  # 0 is a legitimate loss (a model that fits exactly); losses may also be negative
 
 
@@ -147,13 +150,18 @@ def setup(ctx):
 def make_rep(rep):
     import jax.numpy as jnp
 
-    if rep == "float":
-        return {v: float(v) for v in LEVELS + SPECIAL}
-    if rep == "np32":
-        return {v: np.float32(float(v)) for v in LEVELS + SPECIAL}
-    if rep == "np64":
-        return {v: np.float64(float(v)) for v in LEVELS + SPECIAL}
-    return {v: jnp.asarray(float(v)) for v in LEVELS + SPECIAL}
+    import warnings
+
+    num = {**{v: float(v) for v in LEVELS + SPECIAL}, **FINE}
+    with warnings.catch_warnings():
+        warnings.simplefilter("ignore")  # 1e39 overflows to inf in the float32 representations, on purpose
+        if rep == "float":
+            return {v: float(x) for v, x in num.items()}
+        if rep == "np32":
+            return {v: np.float32(x) for v, x in num.items()}
+        if rep == "np64":
+            return {v: np.float64(x) for v, x in num.items()}
+        return {v: jnp.asarray(x) for v, x in num.items()}
 
 
 def run(case, ctx):
@@ -192,6 +200,9 @@ def _run_hist(case, ctx, ml):
             for hi, hist in enumerate(it.product(SPECIAL, repeat=L)):
                 if any(v in ("inf", "nan") for v in hist):
                     yield L, hi, hist
+        for L in range(1, case["maxlen"]):
+            for hi, hist in enumerate(it.product(tuple(FINE), repeat=L)):
+                yield L, hi, hist
 
     for L, hi, hist in all_histories():
         if True:
